@@ -100,10 +100,9 @@ SPACES = {
         _space(["AA", "AB"], [H0, HA, HB], 1),
         _space(["AC"], [H0], 1),
         _space(["AD"], [H0], 2),
-        _space(["AAA"], [H0], 3),
+        _space(["AAA"], [H0], 3, bound=3),
         _space(["AAB"], [H0], 3, bound=1),
         _space(["AA", "AB"], [H0], 2, full=True, budget=60),
-        _space(["AA"], [HA], 2, full=True, budget=60),
     ],
     "thorough": [
         _space(["A", "B", "C", "D"], [H0, HA, HB, ["A", "A"], HAB, ["D"]], 0),
